@@ -228,9 +228,13 @@ def part_b(res, rng, tier, seed, d):
 def part_c(res, rng, tier, seed, d):
     tle_dir, tle_name = impl.make_tle_dir(d)
     plans = [("gac_klm", "noaa16"), ("lac_klm", "noaa16"), ("gac_pod", "noaa14")] * (1 if tier == "quick" else 5)
+    long_done = False
     for fmt, sc in plans:
         res_, width = l1b.FMT[fmt]["res"], l1b.FMT[fmt]["width"]
         n = rng.choice([12, 40])
+        if fmt == "gac_klm" and not long_done:
+            n = 2300            # a pass of more than 2048 lines (about 19 minutes of GAC)
+            long_done = True
         t0 = tg.ms_of(datetime.datetime(2001, 3, 4)) + rng.randrange(0, 300 * 86400) * 1000
         period_us = 500000.0 if res_ == "gac" else 1e6 / 6
         if fmt == "lac_klm" or rng.random() < 0.3:
